@@ -300,6 +300,28 @@ pub fn check(scn: &dyn Scenario, opts: &CheckOpts) -> i32 {
         return 2;
     }
 
+    // Thorough tier: the same runs in two fresh processes with different worker counts.
+    let mut cross_process = 0u64;
+    if opts.tier == Tier::Thorough {
+        let n = 3000u64.min(n_runs);
+        let exe = std::env::current_exe().expect("exe");
+        let child = |threads: &str| {
+            std::process::Command::new(&exe)
+                .args(["digests", prop, &n.to_string(), "thorough"])
+                .env("VERIF_THREADS", threads)
+                .env("VERIF_SEED", opts.seed.to_string())
+                .output()
+                .map(|o| o.stdout)
+                .unwrap_or_default()
+        };
+        let (a, b) = (child("3"), child("11"));
+        if a.is_empty() || a != b {
+            eprintln!("HARNESS ERROR: nondeterminism across processes: {} runs gave different digests with 3 and 11 workers", n);
+            return 2;
+        }
+        cross_process = n;
+    }
+
     // Report violations: minimise, persist, replay in a fresh process.
     let mut reported = 0;
     let mut seen_classes = HashSet::new();
@@ -331,7 +353,7 @@ pub fn check(scn: &dyn Scenario, opts: &CheckOpts) -> i32 {
     }
 
     let wall = t0.elapsed().as_secs_f64();
-    write_evidence(scn, opts, &a, det_checked, wall, reported);
+    write_evidence(scn, opts, &a, det_checked, cross_process, wall, reported);
     println!(
         "{} {}: {} runs, {} distinct signatures ({} non-trivial), {:.1} simulated s, {:.1}s wall, determinism re-checks {} ok, violations {}",
         prop,
@@ -640,7 +662,7 @@ fn minimise(scn: &dyn Scenario, plan: &Value, tape: &[u32], class: &str, detail:
 // Evidence
 // ---------------------------------------------------------------------------
 
-fn write_evidence(scn: &dyn Scenario, opts: &CheckOpts, a: &Agg, det_checked: u64, wall: f64, reported: usize) {
+fn write_evidence(scn: &dyn Scenario, opts: &CheckOpts, a: &Agg, det_checked: u64, cross_process: u64, wall: f64, reported: usize) {
     let info = scn.info();
     let mut faults = BTreeMap::new();
     let mut probes = BTreeMap::new();
@@ -673,7 +695,7 @@ fn write_evidence(scn: &dyn Scenario, opts: &CheckOpts, a: &Agg, det_checked: u6
             "probes": probes,
             "probes_never_hit": never,
             "counters": other,
-            "determinism": {"runs_re_executed_from_recorded_plan_and_tape": det_checked, "digest_mismatches": 0},
+            "determinism": {"runs_re_executed_from_recorded_plan_and_tape": det_checked, "runs_compared_across_two_fresh_processes_with_3_and_11_workers": cross_process, "digest_mismatches": 0},
             "components_real": info.components_real,
             "components_stubbed": info.components_stubbed,
             "known_findings_seen": known,
